@@ -102,11 +102,15 @@ static void sched_point(void) { IGN++; int nxt = choose_next(ME); if (nxt >= 0) 
 static void wait_hook(int pipe_id) { IGN++; WAITING[ME] = pipe_id; for (;;) { if (pipe_ready(pipe_id)) break; int nxt = choose_next(-1); /* I cannot continue */ if (nxt < 0) { /* nobody can run: deadlock -> close my pipe so that recv returns */ DEADLOCK = 1; HP[pipe_id]->closed = 1; break; } if (nxt == ME) break; switch_to(nxt); } WAITING[ME] = -1; IGN--; }
 static void *task_thread(void *arg) { int t = (int)(intptr_t)arg; ME = t; pthread_attr_t at; pthread_getattr_np(pthread_self(), &at); void *sa; size_t ss; pthread_attr_getstack(&at, &sa, &ss); pthread_attr_destroy(&at); STK_LO = (uintptr_t)sa; STK_HI = STK_LO + ss; IGN = 1; sem_wait(&SEM[t]); CUR = t; IGN = 0;
 	run_task_body(t); IGN = 1; DONE[t] = 1; if (TASK[t].role) pipe_close_peer(3000 + TASK[t].pipe); int nxt = choose_next(-1); if (nxt >= 0) { CUR = nxt; sem_post(&SEM[nxt]); } else { for (int i = 0; i < NT; i++) if (!DONE[i]) DEADLOCK = 1; sem_post(&MAINSEM); } ME = -1; return NULL; }
+void *__real_memcpy(void *, const void *, size_t); void *__real_memset(void *, int, size_t); void *__real_memmove(void *, const void *, size_t);
 /* shadow map */
 typedef struct { uintptr_t g; uint32_t gen; uint8_t rd, wr; } sh_t; static sh_t *SH; static size_t SHCAP = 1 << 22; static uint32_t GEN = 1;
 #define MAXW 4096
 static uintptr_t WSET[MAXW]; static int NW; static uintptr_t NEWW[MAXW]; static int NNEWW; static int USE_W;
-static int in_w(uintptr_t g) { for (int i = 0; i < NW; i++) if (WSET[i] == g) return 1; return 0; }
+#define WHCAP (1 << 15)
+static uintptr_t WH[WHCAP]; /* hash set over WSET (open addressing; at most MAXW = WHCAP/8 entries) */
+static void w_rehash(void) { __real_memset(WH, 0, sizeof WH); for (int i = 0; i < NW; i++) { size_t j = (WSET[i] * 0x9E3779B97F4A7C15ULL) >> 49; while (WH[j & (WHCAP - 1)]) j++; WH[j & (WHCAP - 1)] = WSET[i]; } }
+static int W_DIRTY = 1; static int in_w(uintptr_t g) { if (!NW) return 0; if (W_DIRTY) { w_rehash(); W_DIRTY = 0; } size_t j = (g * 0x9E3779B97F4A7C15ULL) >> 49; for (;;) { uintptr_t v = WH[j & (WHCAP - 1)]; if (!v) return 0; if (v == g) return 1; j++; } }
 extern char __data_start[], _end[];
 static inline void touch(uintptr_t g, int w) { size_t j = (g * 0x9E3779B97F4A7C15ULL) >> 42; sh_t *e; for (;;) { e = &SH[j & (SHCAP - 1)]; if (e->gen != GEN) { e->g = g; e->gen = GEN; e->rd = e->wr = 0; break; } if (e->g == g) break; j++; } uint8_t bit = (uint8_t)(1 << ME); uint8_t acc = e->rd | e->wr | bit, wr = e->wr | (w ? bit : 0); if (w) e->wr |= bit; else e->rd |= bit;
 	int conflict = wr && (acc & (acc - 1)); int stat_write = w && (g << 3) >= (uintptr_t)__data_start && (g << 3) < (uintptr_t)_end;
@@ -116,7 +120,7 @@ static inline void on_access(uintptr_t a, size_t n, int w) { if (ME < 0 || IGN |
 RW(1) RW(2) RW(4) RW(8) RW(16)
 void __tsan_init(void) {} void __tsan_func_entry(void *p) { (void)p; } void __tsan_func_exit(void) {} void __tsan_vptr_update(void **a, void *b) { (void)a; (void)b; } void __tsan_vptr_read(void **a) { (void)a; }
 void __tsan_read_range(void *a, unsigned long n) { on_access((uintptr_t)a, n, 0); } void __tsan_write_range(void *a, unsigned long n) { on_access((uintptr_t)a, n, 1); }
-void *__real_memcpy(void *, const void *, size_t); void *__real_memset(void *, int, size_t); void *__real_memmove(void *, const void *, size_t);
+
 void *__wrap_memcpy(void *d, const void *s, size_t n) { on_access((uintptr_t)s, n, 0); on_access((uintptr_t)d, n, 1); return __real_memcpy(d, s, n); }
 void *__wrap_memmove(void *d, const void *s, size_t n) { on_access((uintptr_t)s, n, 0); on_access((uintptr_t)d, n, 1); return __real_memmove(d, s, n); }
 void *__wrap_memset(void *d, int c, size_t n) { on_access((uintptr_t)d, n, 1); return __real_memset(d, c, n); }
@@ -148,14 +152,14 @@ static void explore_combo(int bound) {
 	char cn[200]; combo_name(cn, sizeof cn);
 	/* sequential references: each plain task alone; a handshake pair together (client, server) in the default schedule */
 	{ NNEWW = 0; int nt = NT; task_t save[MAXT]; __real_memcpy(save, TASK, sizeof save); out_t ref[MAXT]; for (int t = 0; t < nt; ) { int span = save[t].role ? 2 : 1; NT = span; for (int i = 0; i < span; i++) TASK[i] = save[t + i]; USE_W = 0; run_schedule(NULL, 0); if (CRASHED) vh_harness_error("reference run crashed"); for (int i = 0; i < span; i++) ref[t + i] = OUT[i]; t += span; } NT = nt; __real_memcpy(TASK, save, sizeof save); __real_memcpy(REF, ref, sizeof ref); }
-	int restarts = 0; NW = 0; /* conflict / static-write granules seen during the reference runs stay pending and are reported with the first schedule */
+	int restarts = 0; NW = 0; W_DIRTY = 1; /* conflict / static-write granules seen during the reference runs stay pending and are reported with the first schedule */
 restart:
 	USE_W = 1; typedef struct { uint8_t *p; int n, pre; } item; static item *stack; if (!stack) stack = (item *)malloc(sizeof(item) * 2000000); int sp = 0; stack[sp++] = (item){ NULL, 0, 0 }; uint64_t sched_here = 0; NOUTC = 0;
 	while (sp) { item it = stack[--sp]; if (vh_deadline_hit()) { vh_capped = 1; free(it.p); continue; } run_schedule(it.p, it.n); NSCHED++; NEXEC++; sched_here++; vh_index++; vh_cases++; vh_block_cases++;
 		int judged = !vh_replay_block || vh_replay_index == vh_index; char pre[300] = ""; for (int i = 0, o = 0; i < it.n && o < 280; i++) if (it.p[i]) o += snprintf(pre + o, sizeof pre - o, "%d:%d,", i, it.p[i]);
 		if (CRASHED) { if (judged) { char key[240]; snprintf(key, sizeof key, "C20:crash:%s", cn); vh_viol(key, "\"schedule\":\"%s\"", pre); } free(it.p); continue; }
 		if (DIVERGED) vh_harness_error("schedule prefix diverged on replay (%s, %s)", cn, pre);
-		if (NNEWW) { /* new conflict granules: report as data race, add to W, restart this combination */ for (int i = 0; i < NNEWW && NW < MAXW; i++) { uintptr_t a = NEWW[i] << 3; const char *sy = symbol_of(a); char sb[100]; snprintf(sb, sizeof sb, "%s", sy); char *plus = strchr(sb, '+'); if (plus) *plus = 0; if (judged && (a >= (uintptr_t)__data_start && a < (uintptr_t)_end)) { char key[240]; snprintf(key, sizeof key, "C20:shared-writable-state:%s", sb); vh_viol(key, "\"combination\":\"%s\",\"symbol\":\"%s\",\"schedule\":\"%s\"", cn, sy, pre); } else if (judged) { char key[240]; snprintf(key, sizeof key, "C20:conflicting-access:%s", cn); vh_viol(key, "\"where\":\"%s\",\"schedule\":\"%s\"", sy, pre); } WSET[NW++] = NEWW[i]; }
+		if (NNEWW) { /* new conflict granules: report as data race, add to W, restart this combination */ for (int i = 0; i < NNEWW && NW < MAXW; i++) { uintptr_t a = NEWW[i] << 3; const char *sy = symbol_of(a); char sb[100]; snprintf(sb, sizeof sb, "%s", sy); char *plus = strchr(sb, '+'); if (plus) *plus = 0; if (judged && (a >= (uintptr_t)__data_start && a < (uintptr_t)_end)) { char key[240]; snprintf(key, sizeof key, "C20:shared-writable-state:%s", sb); vh_viol(key, "\"combination\":\"%s\",\"symbol\":\"%s\",\"schedule\":\"%s\"", cn, sy, pre); } else if (judged) { char key[240]; snprintf(key, sizeof key, "C20:conflicting-access:%s", cn); vh_viol(key, "\"where\":\"%s\",\"schedule\":\"%s\"", sy, pre); } WSET[NW++] = NEWW[i]; W_DIRTY = 1; }
 			while (sp) free(stack[--sp].p); free(it.p); NNEWW = 0; if (++restarts < 40) goto restart; break; }
 		uint64_t oc = 0; for (int t = 0; t < NT; t++) oc = vh_hash(&OUT[t], sizeof OUT[t], oc); int seen = 0; for (int i = 0; i < NOUTC; i++) if (OUTCOMES_SEEN[i] == oc) seen = 1; if (!seen && NOUTC < 64) OUTCOMES_SEEN[NOUTC++] = oc;
 		if (judged) { vh_eval(vh_hash(it.p, it.n, vh_hash(TASK, sizeof(task_t) * NT, 5))); if (DEADLOCK) { char key[240]; snprintf(key, sizeof key, "C20:deadlock:%s", cn); vh_viol(key, "\"schedule\":\"%s\"", pre); }
